@@ -10,14 +10,17 @@
   Property theorems only; the model is Stef/Receiver.lean (onStream + Responder.Run as written),
   helper lemmas live in Stef/Proofs/Receiver.lean. All statements quantify over every event list
   from the initial state, i.e. over every interleaving of the decoding loop, the Responder's
-  select (bad-data / tick / stop) and the response stream, every sequence of consumer outcomes,
-  every batch size and every point at which SendDataResponse starts failing.
+  selects (outer: bad-data / tick / stop; inner, in the tick branch: bad-data / default) and the
+  response stream, every sequence of consumer outcomes, every batch size and every point at which
+  SendDataResponse starts failing.
 
-  The code as written violates two clauses (confirmed on the real code by h_recv, signatures
-  `ack-before-bad-report`, `ack-regress`; a third one, `bad-range-off-by-one`, was repaired by fix
-  commit 3f3aa6e and its clause is now proved at full strength). For those the full statement is
-  kept and its NEGATION is proved from a concrete run; the `_partial` theorem carries the excluding
-  hypothesis explicitly.
+  History: the code used to violate three clauses (confirmed on the real code by h_recv, signatures
+  `bad-range-off-by-one`, repaired by fix commit 3f3aa6e; `ack-before-bad-report` and `ack-regress`,
+  repaired by fix commit 3888867). Before 3888867 this file proved the NEGATION of `AckAfterConsume`
+  and `AckMonotone` from a race run and `_partial` versions under the hypothesis "no tick fires
+  while bad data waits in the channel" (`TickClean`). With the tick branch as written now (load the
+  id, report pending bad data, only then acknowledge; never lower the acknowledged id) both hold in
+  EVERY run and are proved below at full strength, as invariants of the LTS.
 -/
 import Stef.Proofs.Receiver
 
@@ -46,33 +49,29 @@ theorem lockstep_n (evs : List Lockstep.Ev) (s : Lockstep.LS) (n : Nat)
 example : ∃ s, Lockstep.run {} [.write, .write, .flush, .read, .write, .flush, .read, .read] = some s ∧
     s.wCount = 3 ∧ s.rCount = 3 := ⟨_, rfl, rfl, rfl⟩
 
-/-! ## the run observed on the real code that breaks two clauses
+/-! ## the schedule that used to break two clauses
 
-  `h_recv` case resp-race-3 / onstream-race-*: responses `ack=2`, `ack=10`, then
-  `ack=4 ranges=[3,4]` (`[2,4]` before fix 3f3aa6e). Batch 1 (ids 1..2) accepted and acknowledged; batch 2 (ids 3..4) permanently
-  rejected and put into the channel; batch 3 (ids 5..10) accepted; Run's select takes the tick
-  branch first (ack 10) and only then the bad-data branch (ack 4). -/
+  `h_recv` case resp-race-* / onstream-race-*: batch 1 (ids 1..2) accepted and acknowledged; batch 2
+  (ids 3..4) permanently rejected and put into the channel; batch 3 (ids 5..10) accepted; then the
+  ticker fires while the bad data is still waiting. Before fix 3888867 the tick branch answered
+  `ack=10` and the bad-data branch afterwards `ack=4 ranges=[3,4]`. Now the tick branch loads 10,
+  takes the bad data out of the channel, sends `ack=4 ranges=[3,4]` and only then `ack=10`. -/
 def raceRun : List Event :=
-  [.checkErr, .decode 2, .consume .accept, .schedAck, .tick, .sendOk,
+  [.checkErr, .decode 2, .consume .accept, .schedAck, .tick, .tickNoBad, .tickAck, .sendOk,
    .checkErr, .decode 2, .consume .perm, .schedBad,
    .checkErr, .decode 6, .consume .accept, .schedAck,
-   .tick, .sendOk, .badRecv, .badDone, .sendOk]
+   .tick, .badRecv, .badDone, .sendOk, .tickAck, .sendOk]
 
-/-- a run in which no tick fires while bad data waits: accepted, rejected, accepted, with the
-    bad-data branch taken before the next tick. -/
+/-- the same batches with the bad-data branch of the outer select taken before the next tick. -/
 def cleanRun : List Event :=
-  [.checkErr, .decode 2, .consume .accept, .schedAck, .tick, .sendOk,
+  [.checkErr, .decode 2, .consume .accept, .schedAck, .tick, .tickNoBad, .tickAck, .sendOk,
    .checkErr, .decode 3, .consume .perm, .schedBad, .badRecv, .badDone, .sendOk,
-   .checkErr, .decode 1, .consume .accept, .schedAck, .tick, .sendOk]
+   .checkErr, .decode 1, .consume .accept, .schedAck, .tick, .tickNoBad, .tickAck, .sendOk]
 
-instance decTickClean : (s : State) → (evs : List Event) → Decidable (TickClean s evs)
-  | _, [] => isTrue trivial
-  | s, e :: es =>
-    match h : step s e with
-    | some s' =>
-      have := decTickClean s' es
-      decidable_of_iff ((e = .tick → s.queue = []) ∧ TickClean s' es) (by simp [TickClean, h])
-    | none => decidable_of_iff (e = .tick → s.queue = []) (by simp [TickClean, h])
+/-- the old order of responses is not a run any more: with bad data waiting, the tick branch
+    cannot take the `default:` of its inner select. -/
+example : ∃ s, run init (raceRun.take 17) = some s ∧ s.qpc = .loaded 10 ∧ s.queue = [(3, 4)] ∧
+    step s .tickNoBad = none := ⟨_, rfl, rfl, by decide, rfl⟩
 
 instance (s : State) (a : Nat) : Decidable (Covered s a) := by unfold Covered; infer_instance
 
@@ -83,46 +82,83 @@ def sentAck (s : State) : Nat := ((s.resps.head?).map (·.ack)).getD 0
 
 /-- FULL statement: whenever a response is sent successfully, its AckRecordId `k` is covered:
     every record up to `k` was decoded and its batch accepted, or rejected permanently and
-    reported in a bad-data range of a response sent so far. -/
+    reported in a bad-data range of a response sent so far (this response included). -/
 def AckAfterConsume : Prop :=
   ∀ evs s s', run init evs = some s → step s .sendOk = some s' → Covered s' (sentAck s')
 
-/-- The code as written violates it: the tick branch acknowledges id 10 while the rejected batch
-    (ids 3..4) is still waiting in `badDataCh`. -/
-theorem ack_after_consume_false : ¬ AckAfterConsume := by
-  intro h
-  have := h (raceRun.take 15) ((run init (raceRun.take 15)).getD init)
-    (((run init (raceRun.take 16))).getD init) (by decide) (by decide)
-  revert this
-  decide
-
-/-- It holds for every run in which no tick fires while bad data waits in the channel. -/
-theorem ack_after_consume_partial :
-    ∀ evs s s', run init evs = some s → TickClean init evs → step s .sendOk = some s' →
-      Covered s' (sentAck s') := by
-  intro evs s s' hrun hclean hstep
-  obtain ⟨hi, ht⟩ := invT_run evs init s inv_init invT_init hclean hrun
-  obtain ⟨r, rest, hr, _, hc⟩ := covered_sendOk hi ht (step_sound hstep)
+/-- It holds in every run (it was false before fix 3888867). -/
+theorem ack_after_consume : AckAfterConsume := by
+  intro evs s s' hrun hstep
+  obtain ⟨hi, ht⟩ := invA_run evs init s inv_init invA_init hrun
+  obtain ⟨r, rest, hr, _, _, hc⟩ := covered_sendOk hi ht (step_sound hstep)
   simpa [sentAck, hr] using hc
 
-/-- non-vacuity: `cleanRun` satisfies the hypothesis, acknowledges ids 2, 5, 6 and reports a range. -/
-example : TickClean init cleanRun ∧
-    ∃ s, run init cleanRun = some s ∧ acks s = [2, 5, 6] ∧ reportedOk s = [(3, 5)] :=
-  ⟨by decide, _, rfl, by decide, by decide⟩
+/-- non-vacuity: in `raceRun` the last `sendOk` acknowledges id 10 with the range of the rejected
+    batch (ids 3..4) already sent; `Covered` is not trivially true: the same state does not cover
+    id 10 when the report is taken away. -/
+example : ∃ s s', run init (raceRun.take 21) = some s ∧ step s .sendOk = some s' ∧ sentAck s' = 10 ∧
+    reportedOk s' = [(3, 4)] ∧ Covered s' 10 ∧ ¬ Covered { s' with resps := [] } 10 :=
+  ⟨_, _, rfl, rfl, rfl, by decide, by decide, by decide⟩
 
-/-- The acknowledged id never exceeds what was decoded, in EVERY run (this half needs no hypothesis). -/
+/-- The same per record id: at the moment a response with AckRecordId `k` is sent successfully,
+    every id `1 .. k` belongs to a batch of the stream that the consumer has accepted, or has
+    rejected permanently and whose exact range is in a successfully sent response (this one or an
+    earlier one). -/
+theorem ack_after_consume_ids :
+    ∀ evs s s', run init evs = some s → step s .sendOk = some s' → CoveredIds s' (sentAck s') := by
+  intro evs s s' hrun hstep
+  have hi' := inv_run (evs ++ [.sendOk]) init s' inv_init (by simp [run_append, hrun, run, hstep])
+  exact coveredIds_of_covered hi'.chain (ack_after_consume evs s s' hrun hstep)
+
+example : ∃ s s', run init (raceRun.take 19) = some s ∧ step s .sendOk = some s' ∧ sentAck s' = 4 ∧
+    (⟨2, 4, .perm⟩ : Batch) ∈ s'.batches ∧ (⟨2, 4, .perm⟩ : Batch).has 3 ∧
+    (⟨2, 4, .perm⟩ : Batch).exactRange ∈ reportedOk s' :=
+  ⟨_, _, rfl, rfl, rfl, by decide, by simp [Batch.has], by decide⟩
+
+/-- Over the whole history of a run: "acknowledged id k implies every record up to k was accepted
+    or reported in a bad-data range sent no later than that ack". Precisely (`AckHistory`, in
+    Stef/Receiver.lean): split the list of SendDataResponse calls of the reached state, oldest first,
+    at any successfully sent response `r`, `s.resps.reverse = pre ++ r :: post`; then every record
+    id `1 ≤ i ≤ r.ack` lies in a batch of the stream which the consumer accepted, or rejected
+    permanently and whose exact id range is a bad-data range of a successfully sent response among
+    `pre ++ [r]`. (That the batch was already accepted / rejected when `r` was sent is
+    `ack_after_consume`, which speaks about the state right after the send.) -/
+theorem ack_history : ∀ evs s, run init evs = some s → AckHistory s := by
+  intro evs s hrun
+  obtain ⟨hi, ht, hh⟩ := invH_run evs init s inv_init invA_init invH_init hrun
+  exact ackHistory_of_inv hi ht hh
+
+/-- non-vacuity: `raceRun` ends with the history ack=2, ack=4 [3,4], ack=10; the report of the
+    rejected batch precedes the acknowledgement of id 10, and `AckHistory` is refuted by the old
+    order of the same responses. -/
+example : ∃ s, run init raceRun = some s ∧
+    s.resps.reverse = [⟨2, [], true⟩, ⟨4, [(3, 4)], true⟩, ⟨10, [], true⟩] ∧
+    ¬ AckHistory { s with resps := [⟨4, [(3, 4)], true⟩, ⟨10, [], true⟩, ⟨2, [], true⟩] } := by
+  refine ⟨_, rfl, by decide, ?_⟩
+  intro h
+  obtain ⟨b, hb, hhas, hout⟩ := h [⟨2, [], true⟩] ⟨10, [], true⟩ [⟨4, [(3, 4)], true⟩] (by decide) rfl 3
+    (by omega) (by decide)
+  have hb' : b = ⟨4, 10, .accept⟩ ∨ b = ⟨2, 4, .perm⟩ ∨ b = ⟨0, 2, .accept⟩ := by
+    have : b ∈ [(⟨4, 10, .accept⟩ : Batch), ⟨2, 4, .perm⟩, ⟨0, 2, .accept⟩] := hb
+    simpa using this
+  rcases hb' with rfl | rfl | rfl
+  · simp [Batch.has] at hhas
+  · revert hout; decide
+  · simp [Batch.has] at hhas
+
+/-- The acknowledged id never exceeds what was decoded, in every run. -/
 theorem ack_le_decoded :
     ∀ evs s s', run init evs = some s → step s .sendOk = some s' → sentAck s' ≤ s'.decoded := by
   intro evs s s' hrun hstep
   have hi := inv_run evs init s inv_init hrun
   have hs := step_sound hstep
   cases hs
-  case sendOk a rs bad hq hb =>
+  case sendOk a rs bad k hq hb =>
     have := sendAck_le hi hq
     have := low_le_of_chain _ _ hi.chain
     simp [sentAck]; omega
 
-example : ∃ s s', run init (raceRun.take 15) = some s ∧ step s .sendOk = some s' ∧ sentAck s' = 10 ∧
+example : ∃ s s', run init (raceRun.take 21) = some s ∧ step s .sendOk = some s' ∧ sentAck s' = 10 ∧
     s'.decoded = 10 := ⟨_, _, rfl, rfl, rfl, rfl⟩
 
 /-! ## acknowledged ids never decrease -/
@@ -130,23 +166,42 @@ example : ∃ s s', run init (raceRun.take 15) = some s ∧ step s .sendOk = som
 /-- FULL statement. -/
 def AckMonotone : Prop := ∀ evs s, run init evs = some s → (acks s).Pairwise (· ≤ ·)
 
-/-- The code as written violates it: ids 2, 10, 4 are acknowledged in this order. -/
-theorem ack_monotone_false : ¬ AckMonotone := by
-  intro h
-  have := h raceRun ((run init raceRun).getD init) (by decide)
-  revert this
-  decide
+/-- It holds in every run (it was false before fix 3888867: ids 2, 10, 4). -/
+theorem ack_monotone : AckMonotone := by
+  intro evs s hrun
+  exact (invA_run evs init s inv_init invA_init hrun).2.sorted
 
-example : ∃ s, run init raceRun = some s ∧ acks s = [2, 10, 4] := ⟨_, rfl, by decide⟩
+example : (∃ s, run init raceRun = some s ∧ acks s = [2, 4, 10]) ∧
+    ∃ s, run init cleanRun = some s ∧ acks s = [2, 5, 6] ∧ reportedOk s = [(3, 5)] :=
+  ⟨⟨_, rfl, by decide⟩, _, rfl, by decide, by decide⟩
 
-/-- It holds for every run in which no tick fires while bad data waits in the channel. -/
-theorem ack_monotone_partial :
-    ∀ evs s, run init evs = some s → TickClean init evs → (acks s).Pairwise (· ≤ ·) := by
-  intro evs s hrun hclean
-  exact (invT_run evs init s inv_init invT_init hclean hrun).2.sorted
+/-- `lastAckedID` of Run never decreases either, step by step. -/
+theorem last_acked_monotone :
+    ∀ evs s e s', run init evs = some s → step s e = some s' → s.lastAcked ≤ s'.lastAcked := by
+  intro evs s e s' hrun hstep
+  obtain ⟨hi, ht⟩ := invA_run evs init s inv_init invA_init hrun
+  have hs := step_sound hstep
+  cases hs
+  case tickAckSend rd hq hgt => simp; omega
+  case sendOk a rs bad k hq hb =>
+    have := sendAck_ge hi ht hq
+    simp; split <;> omega
+  all_goals exact Nat.le_refl _
 
-example : TickClean init cleanRun ∧ ∃ s, run init cleanRun = some s ∧ acks s = [2, 5, 6] :=
-  ⟨by decide, _, rfl, by decide⟩
+example : ∃ s s', run init (raceRun.take 20) = some s ∧ step s .tickAck = some s' ∧
+    s.lastAcked = 4 ∧ s'.lastAcked = 10 := ⟨_, _, rfl, rfl, rfl, rfl⟩
+
+/-- `if response.AckRecordId < lastAckedID { response.AckRecordId = lastAckedID }` in
+    sendBadDataResponse is purely defensive: in every reachable state the id composed from the
+    collected ranges is already above `lastAckedID`, so `badDone` never changes it. -/
+theorem bad_ack_never_clamped :
+    ∀ evs s a rs k, run init evs = some s → s.qpc = .composing a rs k → s.lastAcked < a := by
+  intro evs s a rs k hrun hq
+  obtain ⟨hi, ht⟩ := invA_run evs init s inv_init invA_init hrun
+  exact composed_gt hi ht hq
+
+example : ∃ s, run init (raceRun.take 18) = some s ∧ s.qpc = .composing 4 [(3, 4)] (some 10) ∧
+    s.lastAcked = 2 := ⟨_, rfl, rfl, rfl⟩
 
 /-! ## a permanently rejected batch is reported exactly once, with exactly its range
 
@@ -190,9 +245,22 @@ theorem bad_data_gets_reported :
     ∀ evs s h tl, run init evs = some s → s.queue = h :: tl → s.qpc = .idle →
       ∃ s', step s .badRecv = some s' ∧ h ∈ inflight s' := by
   intro evs s h tl _ hq hidle
-  exact ⟨{ s with queue := tl, qpc := .composing h.2 [h] }, by simp [step, hq, hidle], by simp [inflight]⟩
+  exact ⟨{ s with queue := tl, qpc := .composing h.2 [h] none }, by simp [step, hq, hidle],
+    by simp [inflight, QPc.infl]⟩
 
 example : ∃ s, run init (raceRun.take 16) = some s ∧ s.queue = [(3, 4)] ∧ s.qpc = .idle :=
+  ⟨_, rfl, by decide, by decide⟩
+
+/-- ... and the same inside the tick branch: after the load, the inner select takes it. -/
+theorem bad_data_gets_reported_tick :
+    ∀ evs s rd h tl, run init evs = some s → s.queue = h :: tl → s.qpc = .loaded rd →
+      step s .tickNoBad = none ∧ ∃ s', step s .badRecv = some s' ∧ h ∈ inflight s' ∧ s'.qpc.rd = some rd := by
+  intro evs s rd h tl _ hq hl
+  exact ⟨by simp [step, hq, hl],
+    { s with queue := tl, qpc := .composing h.2 [h] (some rd) }, by simp [step, hq, hl],
+    by simp [inflight, QPc.infl], by simp [QPc.rd]⟩
+
+example : ∃ s, run init (raceRun.take 17) = some s ∧ s.queue = [(3, 4)] ∧ s.qpc = .loaded 10 :=
   ⟨_, rfl, by decide, by decide⟩
 
 /-! ## the stream continues after a permanent error -/
@@ -206,13 +274,13 @@ theorem perm_error_keeps_stream :
   cases hs
   case consumePerm b bs hr hb => exact ⟨rfl, _, _, rfl⟩
 
-/-- ... and from every reachable state in which the loop holds a rejected batch, at most two
-    Responder events make room in the channel, after which the loop schedules the bad data,
+/-- ... and from every reachable state in which the loop holds a rejected batch, at most four
+    Responder events make room in the channel (one, unless a send is in progress), after which the loop schedules the bad data,
     checks `LastError` and is reading the next batch again (any batch size is then enabled) - unless
     RESPONDING has failed, which is the only reason for it to leave. -/
 theorem stream_continues :
     ∀ evs s f t, run init evs = some s → s.rpc = .needBad f t →
-      ∃ pre s', pre.length ≤ 2 ∧ run s (pre ++ [.schedBad, .checkErr]) = some s' ∧
+      ∃ pre s', pre.length ≤ 4 ∧ run s (pre ++ [.schedBad, .checkErr]) = some s' ∧
         (s'.rpc = .await ∨ (s'.rpc = .exited ∧ s'.lastError = true)) ∧
         (s'.rpc = .await → ∀ n, 0 < n → (step s' (.decode n)).isSome) := by
   intro evs s f t hrun hr
@@ -224,7 +292,7 @@ theorem stream_continues :
   simp [step, ha, this]
 
 /-- non-vacuity: after the rejected batch of `raceRun` the loop decodes and delivers batch 3. -/
-example : ∃ s, run init (raceRun.take 9) = some s ∧ s.rpc = .needBad 3 4 ∧
+example : ∃ s, run init (raceRun.take 11) = some s ∧ s.rpc = .needBad 3 4 ∧
     ∃ s', run s [.schedBad, .checkErr, .decode 6, .consume .accept] = some s' ∧ s'.decoded = 10 :=
   ⟨_, rfl, rfl, _, rfl, rfl⟩
 
